@@ -430,7 +430,7 @@ def server_life(chk, rnd):
 
   lost = 0
   for name, (ops, disciplined) in LIFE_SCRIPTS.items():
-    consts = dict(Scripts='<- mc_Scripts', MaxThreads=3)
+    consts = dict(Scripts='<- mc_Scripts', MaxThreads=3, Foreground=False, StopNeedsThread=True)
     good = tlc.run('dist', 'ServerLife', tlc.cfg_text(constants=dict(consts, JoinFirst=True), invariants=laws, deadlock=False),
                    mc_defs=dict(mc_Scripts=tla(ops)), coverage=True, timeout=600)
     chk.add_tlc(good, f'ServerLife/{name}/JoinFirst')
